@@ -299,7 +299,8 @@ def main(run: core.Run) -> None:
     for name, fam in F.FAMILIES.items():
         got = 0
         tries = 0
-        while got < per_fam and tries < per_fam * 6:
+        want = min(per_fam, 600) if name == "gqa" else per_fam  # the repo's script builder is ~10x slower per case
+        while got < want and tries < want * 6:
             tries += 1
             c = fam.gen(run.rng)
             if hasattr(fam, "valid") and not fam.valid(c):
